@@ -8,6 +8,7 @@ character of the input is dropped or duplicated.  A sample goes through `p8tool 
 `p8tool build --lua cart.p8`, reading the written __lua__ section with the reference .p8 reader.
 """
 import os
+from .. import ambient
 import shutil
 import tempfile
 
@@ -196,12 +197,12 @@ def check_source(ctx, src, tag, cli_dir=None):
             fh.write(rc.write_p8(regions, src, version=8))
         want = src if src.endswith(b'\n') else src + b'\n'
         try:
-            rcode = tool.main(['-q', 'writep8', p1])
+            rcode = tool.main([ambient.vflag(), 'writep8', p1])
             got1 = rc.read_p8(open(os.path.join(cli_dir, 'in_fmt.p8'), 'rb').read())['code']
             out2 = os.path.join(cli_dir, 'out.p8')
             if os.path.exists(out2):
                 os.remove(out2)
-            rcode2 = tool.main(['-q', 'build', out2, '--lua', p1])
+            rcode2 = tool.main([ambient.vflag(), 'build', out2, '--lua', p1])
             got2 = rc.read_p8(open(out2, 'rb').read())['code']
         except Exception as e:
             ctx.violation('CLI copy path raised %r' % (e,), case)
